@@ -256,7 +256,7 @@ def instrument_model(m, fw, cfg):
     """instance-level recorders around the methods whose decision logic the Coq model mirrors; nothing in the kawin
     source is touched.  Returns the dict the records are appended to."""
     import kawin.precipitation.KWNBase as KB
-    rec = {'fill': Keep(10, 3, 30), 'lookup': Keep(8, 5, 30), 'gbin': Keep(6, 41, 24), 'gmulti': Keep(30, 7, 80), 'nuc': Keep(30, 7, 80), 'getdt': Keep(10, 29, 40)}
+    rec = {'fill': Keep(10, 3, 30), 'lookup': Keep(8, 5, 30), 'gbin': Keep(6, 41, 24), 'gmulti': Keep(30, 7, 80), 'nuc': Keep(30, int(cfg.get('nuc_stride', 7)), 80), 'getdt': Keep(10, 29, 40)}
     P = len(m.phases)
     binary = m.numberOfElements == 1
 
@@ -482,6 +482,17 @@ def check_state(m, nsteps_expected=None):
     rng_chk('Ravg', 'radii_nonneg', 0, None)
     rng_chk('Rcrit', 'radii_nonneg', 0, None)
     rng_chk('precipitateDensity', 'psd_nonneg', 0, None)
+    # a phase whose (calculated) driving force is negative does not nucleate: recorded rate and radius are 0 on every such step
+    dgs, nr, rn = arrs.get('drivingForce'), arrs.get('nucRate'), arrs.get('Rnuc')
+    if dgs is not None and nr is not None and rn is not None and dgs.dtype != object and dgs.shape == nr.shape == rn.shape:
+        with np.errstate(invalid='ignore'):
+            neg = dgs < 0
+            for nm, a in (('nucRate', nr), ('Rnuc', rn)):
+                bad = neg & (a != 0)
+                if bad.any():
+                    row = int(np.argmax(bad.reshape(bad.shape[0], -1).any(axis=1)))
+                    v.append(('no_nucleation_without_driving_force', nm, '%s[%d] = %r although drivingForce[%d] = %r is negative' % (
+                        nm, row, a[row].tolist(), row, dgs[row].tolist())))
     vf = arrs.get('volFrac')
     if vf is not None and vf.dtype != object and vf.ndim == 2:
         with np.errstate(invalid='ignore'):
